@@ -159,6 +159,7 @@ fn main() {
     let seed: u64 = args.get(3).and_then(|s| s.parse().ok()).unwrap_or(1);
     let mut s = seed.wrapping_mul(6364136223846793005).wrapping_add(1442695040888963407) | 1;
     let mut rnd = move || { s ^= s << 13; s ^= s >> 7; s ^= s << 17; s };
+    let mut last_scen = String::new();
     for _ in 0..count {
         let nmod = 1 + (rnd() % 2) as usize;
         let progs: Vec<Vec<Vec<Op>>> = (0..nmod).map(|_| (0..1 + rnd() % 3).map(|_| gen_prog(&mut rnd)).collect()).collect();
@@ -176,6 +177,7 @@ fn main() {
         got.sort_by_key(key); // stable: keeps each task's own order
         want.sort_by_key(key);
         let scen = format!("programs {:?} self_messages_at {:?}", progs, pings);
+        last_scen = scen.clone();
         let mut bad: Option<(&str, String, String)> = None;
         match &res {
             Err(_) => bad = Some(("run-panicked", "run() returns".into(), "panic".into())),
@@ -203,5 +205,5 @@ fn main() {
             std::process::exit(3);
         }
     }
-    println!("{{\"mismatch\":false,\"scenarios\":{},\"other\":\"\"}}", count);
+    println!("{{\"mismatch\":false,\"scenarios\":{},\"other\":\"\",\"sample\":\"{}\"}}", count, last_scen.replace('"', "'"));
 }
